@@ -12,6 +12,7 @@ package rostrconv
 //@   binds v
 //@   calls Atoi
 //@   params v
+//@   scope v
 //@   maypanic
 //@   track call.*
 //@   ensures [calls-the-wrapped-function-once|C18] count(call.ANY) == 1 && called(call.Atoi)
@@ -23,6 +24,7 @@ package rostrconv
 //@   binds v mt prec bitSize
 //@   calls FormatComplex
 //@   params v
+//@   scope bitSize mt prec v
 //@   maypanic
 //@   track call.*
 //@   ensures [calls-the-wrapped-function-once|C18] count(call.ANY) == 1 && called(call.FormatComplex)
@@ -34,6 +36,7 @@ package rostrconv
 //@   binds v mt prec bitSize
 //@   calls FormatFloat
 //@   params v
+//@   scope bitSize mt prec v
 //@   maypanic
 //@   track call.*
 //@   ensures [calls-the-wrapped-function-once|C18] count(call.ANY) == 1 && called(call.FormatFloat)
@@ -45,6 +48,7 @@ package rostrconv
 //@   binds v base
 //@   calls FormatInt
 //@   params v
+//@   scope base v
 //@   maypanic
 //@   track call.*
 //@   ensures [calls-the-wrapped-function-once|C18] count(call.ANY) == 1 && called(call.FormatInt)
@@ -56,6 +60,7 @@ package rostrconv
 //@   binds v base
 //@   calls FormatUint
 //@   params v
+//@   scope base v
 //@   maypanic
 //@   track call.*
 //@   ensures [calls-the-wrapped-function-once|C18] count(call.ANY) == 1 && called(call.FormatUint)
@@ -67,6 +72,7 @@ package rostrconv
 //@   binds v
 //@   calls ParseBool
 //@   params v
+//@   scope v
 //@   maypanic
 //@   track call.*
 //@   ensures [calls-the-wrapped-function-once|C18] count(call.ANY) == 1 && called(call.ParseBool)
@@ -78,6 +84,7 @@ package rostrconv
 //@   binds v bitSize
 //@   calls ParseFloat
 //@   params v
+//@   scope bitSize v
 //@   maypanic
 //@   track call.*
 //@   ensures [calls-the-wrapped-function-once|C18] count(call.ANY) == 1 && called(call.ParseFloat)
@@ -89,6 +96,7 @@ package rostrconv
 //@   binds v base bitSize
 //@   calls ParseInt
 //@   params v
+//@   scope base bitSize v
 //@   maypanic
 //@   track call.*
 //@   ensures [calls-the-wrapped-function-once|C18] count(call.ANY) == 1 && called(call.ParseInt)
@@ -100,6 +108,7 @@ package rostrconv
 //@   binds v base bitSize
 //@   calls ParseUint
 //@   params v
+//@   scope base bitSize v
 //@   maypanic
 //@   track call.*
 //@   ensures [calls-the-wrapped-function-once|C18] count(call.ANY) == 1 && called(call.ParseUint)
@@ -111,6 +120,7 @@ package rostrconv
 //@   binds v base bitSize
 //@   calls ParseUint
 //@   params v
+//@   scope base bitSize v
 //@   maypanic
 //@   track call.*
 //@   ensures [calls-the-wrapped-function-once|C18] count(call.ANY) == 1 && called(call.ParseUint)
